@@ -88,12 +88,13 @@ def _parse_printed(out, res):
 
 
 def run_tlc(module, cfg, workdir, env=None, workers=None, simulate=None, depth=None, coverage=True,
-            timeout=3600, extra=None, deadlock=False, allow_violation=False, jvm=None, seed_=None):
+            timeout=3600, extra=None, deadlock=False, allow_violation=False, jvm=None, seed_=None, tag=None):
     """Run TLC on SPEC/<module>.tla with SPEC/<cfg>. Returns TLCResult.
 
     Raises MachineryError when TLC itself fails (parse error, crash, evaluation error, timeout)."""
     os.makedirs(workdir, exist_ok=True)
-    meta = os.path.join(workdir, "meta-" + os.path.basename(cfg).replace(".cfg", ""))
+    tag = tag or os.path.basename(cfg).replace(".cfg", "")
+    meta = os.path.join(workdir, "meta-" + tag)
     if os.path.isdir(meta):
         shutil.rmtree(meta)
     cmd = ["java", "-XX:+UseParallelGC", "-Xss64m"]
@@ -128,7 +129,7 @@ def run_tlc(module, cfg, workdir, env=None, workers=None, simulate=None, depth=N
     res.wall = time.time() - t0
     out = p.stdout
     res.stdout = out
-    with open(os.path.join(workdir, "tlc-" + os.path.basename(cfg).replace(".cfg", "") + ".out"), "w") as f:
+    with open(os.path.join(workdir, "tlc-" + tag + ".out"), "w") as f:
         f.write(out)
     for m in _RE_STATES.finditer(out):
         res.generated, res.distinct = int(m.group(1)), int(m.group(2))
